@@ -23,7 +23,7 @@ claim("C11", "TLC trace validation of codec/spelling/shift/apply events + exhaus
       "rows) are judged by the specification's own byte-level reader (SymopText.tla); every read is compared, hashed and printed against the same operation "
       "built from the packed integer and the matrix; 3-vector/homogeneous/Cartesian application (also of operations built from integer matrices, of crystals "
       "switched in place, and after the caller edited the matrix it was handed) is compared with Symop!ApplyRaw. "
-      "The thorough tier enumerates the 34,012,224 packed codes as a prefix bounded by its time budget (evidence states the prefix). Homogeneous vectors are also handed over un-normalised (weights 2 and 3, directions with weight 0) and the Cartesian form is taken on cells of special shape (right angles, equal edges, 120 degrees). is_identity is checked modulo the lattice; Cartesian forms are also taken for an operation list read from a file in an untabulated setting.",
+      "The thorough tier enumerates the 34,012,224 packed codes as a prefix bounded by its time budget (evidence states the prefix). Homogeneous vectors are also handed over un-normalised (weights 2 and 3, directions with weight 0) and the Cartesian form is taken on cells of special shape (right angles, equal edges, 120 degrees). is_identity is checked modulo the lattice; Cartesian forms are also taken for an operation list read from a file in an untabulated setting. Shifts may contain twelfths (Symop!Shift); SymopProofs.tla (19 TLAPS obligations) proves the translation arithmetic for all integers.",
       "Trusts TLC, the grid projection (residual > 1e-9 is rejected as OnGrid) and the decode written in the spec. Spelling grammar = Symop!Spelling.")
 
 claim("C01", "TLC model checking of the unit-cell algorithm against the orbit + trace validation of real Crystal objects",
@@ -130,7 +130,7 @@ claim("C10", "TLC trace validation of file content and reloaded crystals for all
       "certified as Symop!ToText of its operation), CELL to 6 decimals, SFAC/atom lines; a POSCAR holds every unit-cell atom (Crystal orbit) of a P1 crystal with the same "
       "Gram matrix; a reloaded CIF/.res crystal has the same IT number, operation set, cell parameters (written precision), labels, elements, grid coordinates and (CIF) "
       "occupancies. Every tabulated setting is exercised in all three formats in both tiers, through the string functions and save()/load() on real files, with crystals "
-      "built in memory or themselves loaded from CIF/.res. MC_SpaceGroup (shared with C02) establishes the reduce/expand round trip on the exported table.",
+      "built in memory or themselves loaded from CIF/.res. MC_SpaceGroup (shared with C02) establishes the reduce/expand round trip on the exported table. A POSCAR composed as other programs write it must load as what it says. Beyond the listed statement (EXTENSION-NOTE only): Trace_GenFile and Trace_PdbFile hold crystals read from .gen files (kinds F and S) and from PDB files whose records the specification itself writes (PdbFile!PdbText).",
       "Coordinates projected to the grid (residual <= 1e-8); cells compared at 1e-6 (2e-6 for .res); occupancy is not demanded for .res (the dialect chmpy writes has no such column); the reference is the crystal actually written.")
 
 claim("C17", "TLC enumeration of the complete spelling domain from an independent symbol table + trace validation of every real lookup",
@@ -139,7 +139,7 @@ claim("C17", "TLC enumeration of the complete spelling domain from an independen
       "grammar at design level (distinct symbols, unambiguous spellings, rejected strings never coincide with accepted ones, Less is a strict total order with carbon "
       "first) and prints the whole finite domain. Every printed spelling goes through Element[...], from_string and from_label; all integers -200..300 through Element[n], "
       "from_atomic_number and a numpy integer; the library's own name of every Z in three letter cases; radii/mass by four routes; random multisets through sorted() and "
-      "chemical_formula. TLC validates each observation against Element!Lookup / SortSpec / Formula. Spellings include the kind prefixed (a non-letter in front of a symbol names no element); non-integral numbers must be rejected; atomic numbers arrive in every numpy integer type (lookups, comparisons, sorting). Digit strings decorated as int() tolerates (+6, 1_0) must be rejected; empty arrays have empty answers.",
+      "chemical_formula. TLC validates each observation against Element!Lookup / SortSpec / Formula. Spellings include the kind prefixed (a non-letter in front of a symbol names no element); non-integral numbers must be rejected; atomic numbers arrive in every numpy integer type (lookups, comparisons, sorting). Digit strings decorated as int() tolerates (+6, 1_0) must be rejected; empty arrays have empty answers. ElementProofs.tla (TLAPS) proves that the ordering is a strict total order on all integers.",
       "Names and numeric columns are the library's own data (consistency across routes only); 'D' is deliberately hydrogen; quick tier enumerates every third rejected code, thorough all.")
 
 claim("C12", "TLC trace validation of every UnitCell construction route in exact BigInt arithmetic + model checking of the lattice identities",
